@@ -98,8 +98,12 @@ Definition created_by_transfer (prior : list entry) (s : stat) : bool :=
   | Some (ps, _) => negb (same_type ps s)
   end.
 
-(* hard-link groups of regular files: representative = linkname, or own path *)
+(* hard-link groups: every entry that is neither a directory nor a symbolic link (regular file,
+   device, fifo, socket) is a name of an inode that may have several; representative = linkname,
+   or own path.  (For a symbolic link Linkname is its target.) *)
 Definition is_reg (s : stat) : bool := N.eqb (unix_type_of_gomode (st_mode s)) S_IFREG.
+Definition is_linkable (s : stat) : bool :=
+  negb (N.eqb (unix_type_of_gomode (st_mode s)) S_IFDIR) && negb (N.eqb (unix_type_of_gomode (st_mode s)) S_IFLNK).
 Definition group_rep (s : stat) : bytes :=
   match st_linkname s with [] => st_path s | l => l end.
 
@@ -118,7 +122,7 @@ Definition inode_created (prior src : list entry) (s : stat) : bool :=
    else true).
 
 Definition links_ok (src : list entry) (dest : list raw) : bool :=
-  let regs := filter (fun e => is_reg (fst e)) src in
+  let regs := filter (fun e => is_linkable (fst e)) src in
   forallb (fun e1 => forallb (fun e2 =>
     match find_raw (st_path (fst e1)) dest, find_raw (st_path (fst e2)) dest with
     | Some d1, Some d2 =>
@@ -183,7 +187,7 @@ Fixpoint find_obs (p : bytes) (l : list obs) : option obs :=
   end.
 
 Definition links_ok_o (src : list entry) (dest : list obs) : bool :=
-  let regs := filter (fun e => is_reg (fst e)) src in
+  let regs := filter (fun e => is_linkable (fst e)) src in
   forallb (fun e1 => forallb (fun e2 =>
     match find_obs (st_path (fst e1)) dest, find_obs (st_path (fst e2)) dest with
     | Some d1, Some d2 =>
@@ -241,10 +245,11 @@ Definition entry_ok (created : bool) (s : stat) (content : bytes) (d : obs) : Pr
 Definition same_paths (src : list entry) (dest : list obs) : Prop :=
   forall p, (exists d, find_obs p dest = Some d) <-> (exists e, In e src /\ st_path (fst e) = p).
 
-(* hard-link groups, as a partition of the paths of regular files: two paths show one
-   inode in the destination iff they are in one link group of the source *)
+(* hard-link groups, as a partition of the paths of all entries that are neither directories nor
+   symbolic links (regular files, devices, fifos): two paths show one inode in the destination
+   iff they are in one link group of the source *)
 Definition link_partition (src : list entry) (dest : list obs) : Prop :=
-  forall e1 e2 d1 d2, In e1 src -> In e2 src -> is_reg (fst e1) = true -> is_reg (fst e2) = true ->
+  forall e1 e2 d1 d2, In e1 src -> In e2 src -> is_linkable (fst e1) = true -> is_linkable (fst e2) = true ->
     find_obs (st_path (fst e1)) dest = Some d1 -> find_obs (st_path (fst e2)) dest = Some d2 ->
     (o_ino d1 = o_ino d2 <-> group_rep (fst e1) = group_rep (fst e2)).
 
